@@ -178,6 +178,15 @@ fn shapes(tier: Tier) -> Vec<Shape> {
         ("macro_kwargs_varargs", "{% macro m() %}{{ varargs|length }}{{ kwargs|length }}{{ m(1, 2, 3, a=varargs, b=kwargs) }}{% endmacro %}{{ m() }}"),
         ("nested_macro_definition", "{% macro outer(d) %}{% macro inner(e) %}{{ outer(e + 1) }}{% endmacro %}{{ inner(d) }}{% endmacro %}{{ outer(0) }}"),
         ("self_include_in_macro_in_loop", "{% macro m() %}{% for q in [1, 2] %}{% include 'main' %}{% endfor %}{% endmacro %}{{ m() }}"),
+        // recursion that leaves the instruction stream through a host function and re-enters the engine
+        // through the state: every such level is a native frame of the host's as well
+        ("block_via_state_render_block", "{% block a %}x{{ rb('a') }}{% endblock %}"),
+        ("block_via_state_render_block_in_loop_and_capture", "{% block a %}{% for q in [1] %}{% set c %}{{ rb('a') }}{% endset %}{{ c }}{% endfor %}{% endblock %}"),
+        ("blocks_mutual_via_state_and_self", "{% block a %}{{ self.b() }}{% endblock %}{% block b %}{{ rb('a') }}{% endblock %}"),
+        ("macro_via_host_call", "{% macro m(f) %}{{ callit(f) }}{% endmacro %}{{ m(m) }}"),
+        ("macro_via_host_call_in_call_block", "{% macro w() %}{{ caller() }}{% endmacro %}{% macro m(f) %}{% call w() %}{{ callit(f) }}{% endcall %}{% endmacro %}{{ m(m) }}"),
+        ("macro_via_host_call_and_filter", "{% macro m(f) %}{{ [f]|map('callit')|join }}{% endmacro %}{{ m(m) }}"),
+        ("macro_via_host_invoke_by_name", "{% macro m(d) %}{{ invoke('m', d) }}{% endmacro %}{{ m(0) }}"),
     ] {
         // (argument binding of the varargs shape may legitimately fail before it recurses)
         v.push(Shape { name: name.into(), family: "self_reference", templates: vec![("main".into(), src.into())], main: "main".into(), infinite: name != "macro_kwargs_varargs" });
@@ -231,6 +240,10 @@ fn run_case(family: &str, n: u64, cc: &mut ChildCtx) {
     let limit = lims[(n as usize) % lims.len()];
     let mut env = Environment::new();
     env.set_recursion_limit(limit);
+    env.add_function("rb", |state: &mut minijinja::State, name: String| state.render_block(&name));
+    env.add_function("callit", |state: &mut minijinja::State, f: Value| f.call(state, &[f.clone()]));
+    env.add_filter("callit", |state: &mut minijinja::State, f: Value| f.call(state, &[f.clone()]));
+    env.add_function("invoke", |state: &mut minijinja::State, name: String, d: Value| state.lookup(&name).unwrap_or_default().call(state, &[d]));
     for (name, src) in &shape.templates {
         if env.add_template_owned(name.clone(), src.clone()).is_err() {
             cc.outcome("does not compile");
